@@ -54,6 +54,9 @@ def run(prog, R, tier="quick", only_rule=None):
     c10e(prog, R)
     c10f(prog, R)
     c10g(prog, R)
+    # a failed checksum inside a scan reaches the caller: the per-source filter passes Err items through
+    from rules.props import c02
+    c02.c02k(prog, R, rid="C10.h")
 
 
 def check_set(prog):
